@@ -87,12 +87,19 @@ func (p *Program) ensureModsets(u *Universe) {
 				}
 			}
 			for _, iv := range mi.invokes {
-				if mi.ms.merge(p.invokeMods(u, iv.iface, iv.m)) {
+				if mi.ms.merge(p.invokeDeclaredOrCHA(u, iv)) {
 					changed = true
 				}
 			}
 		}
 	}
+}
+
+func (p *Program) invokeDeclaredOrCHA(u *Universe, iv invokeSite) *ModSet {
+	if con := p.contracts[ifaceMethodName(iv.iface, iv.m)]; con != nil && (con.HasAssign || con.Pure) {
+		return p.assignsModSet(u, con)
+	}
+	return p.invokeMods(u, iv.iface, iv.m)
 }
 
 func (p *Program) modsetNoFix(u *Universe, fn *ssa.Function) *ModSet {
@@ -107,7 +114,7 @@ func (p *Program) modsetNoFix(u *Universe, fn *ssa.Function) *ModSet {
 			mi.ms.merge(p.modsetNoFix(u, c))
 		}
 		for _, iv := range mi.invokes {
-			mi.ms.merge(p.invokeMods(u, iv.iface, iv.m))
+			mi.ms.merge(p.invokeDeclaredOrCHA(u, iv))
 		}
 		return mi.ms
 	}
